@@ -1,6 +1,7 @@
 package main
 
 import (
+	"go/types"
 	"fmt"
 	"go/token"
 	"strings"
@@ -774,7 +775,7 @@ func runC20(c *Ctx) {
 	}
 
 	// ---------- C20.e ----------
-	c.clause("C20.e", "T9", "the index formatted into urls.<i> is the index of the iteration that handles that layer (writer) / the position in the split list (readers)", 3)
+	c.clause("C20.e", "T9", "the index formatted into urls.<i> is the index of the iteration that handles that layer (writer) / the position in the split list (readers)", 4)
 	checkIdx := func(f *ssa.Function) {
 		for _, g := range withAnon(f) {
 			eachInstr(g, func(i ssa.Instruction) {
@@ -809,6 +810,62 @@ func runC20(c *Ctx) {
 	for _, x := range [][2]string{{sp, "AppendDefaultLabelsHandlerWrapper"}, {sp, "FromDefaultLabels"}, {"service", "sourceFromCRILabels"}, {sp, "AppendExtraLabelsHandler"}} {
 		if f := c.mustFn(x[0], x[1]); f != nil {
 			checkIdx(f)
+		}
+	}
+	// readers: the list whose positions index urls.<i> is the split label itself, not a filtered or
+	// re-ordered copy of it (the writer numbered the labels by position in the list it stored)
+	for _, x := range [][2]string{{sp, "FromDefaultLabels"}, {"service", "sourceFromCRILabels"}} {
+		f := c.mustFn(x[0], x[1])
+		if f == nil {
+			continue
+		}
+		for _, g := range withAnon(f) {
+			eachInstr(g, func(i ssa.Instruction) {
+				ph, ok := i.(*ssa.Phi)
+				if !ok || ph.Comment != "rangeindex" {
+					return
+				}
+				// the loop must be one that formats urls.<i>
+				uses := false
+				eachInstr(g, func(j ssa.Instruction) {
+					if b, ok := j.(*ssa.BinOp); ok && b.Op == token.ADD {
+						if s, ok := constString(b.X); ok && strings.HasSuffix(s, "urls.") {
+							uses = true
+						}
+					}
+				})
+				if !uses {
+					return
+				}
+				// find len(x) compared with the index
+				var ranged ssa.Value
+				eachInstr(g, func(j ssa.Instruction) {
+					if b, ok := j.(*ssa.BinOp); ok && b.Op == token.LSS {
+						if inc, ok := stripConv(b.X).(*ssa.BinOp); ok && stripConv(inc.X) == ssa.Value(ph) {
+							if ln, ok := stripConv(b.Y).(*ssa.Call); ok && calleeID(ln) == "builtin.len" {
+								ranged = ln.Call.Args[0]
+							}
+						}
+					}
+				})
+				if ranged == nil {
+					return
+				}
+				if _, isStr := ranged.Type().Underlying().(*types.Slice); !isStr {
+					return
+				}
+				if sl, ok := ranged.Type().Underlying().(*types.Slice); !ok || sl.Elem().String() != "string" {
+					return
+				}
+				good := true
+				for _, rv := range reachingVals(ranged) {
+					call, ok := stripConv(rv).(*ssa.Call)
+					if !ok || calleeID(call) != "strings.Split" {
+						good = false
+					}
+				}
+				c.verdict(c.fnKey(g)+":urls-index-list", ph.Pos(), good, "the loop ranges over the strings.Split result of the layers label", "the list whose positions select urls.<i> is not the split layers label itself (filtered, de-duplicated or re-ordered): positions no longer match the numbering the writer used")
+			})
 		}
 	}
 	clauseParsedPrefetchSizeAdopted(c, "C20.h")
